@@ -153,6 +153,11 @@ def handle (line : String) : String :=
     match parseList f with
     | some c => hexRes (Rfc.sctList c)
     | none => "bad-op"
+  | "XD" :: f =>
+    match kv f "pre", kvHex f "cert", parseList f with
+    | some pre, some cert, some chain =>
+      if pre = "1" then hexRes (Rfc.precertChainEntry ⟨cert, chain⟩) else hexRes (Rfc.certChain chain)
+    | _, _, _ => "bad-op"
   | "SCTIN" :: f =>
     match parseEntry f, kvNat f "v", kvNat f "ts", kvHex f "ext" with
     | some e, some v, some t, some ext =>
